@@ -33,10 +33,16 @@ def gen(rng):
         elif r < 0.5:
             cond = (False, rng.choice(facts)[0])
         rules.append((i, args, cond))
+    # in a third of the rule sets the first argument is a compound term, in some heads with a variable inside (w(_)):
+    # the head is neither ground nor a variable; the calls then give that argument as a ground term
+    compound = rng.random() < 0.33
+    if compound:
+        rules = [(i, (rng.choice(["w(_)", "w(_)", "w(a)", "w(b)", "v(a)"]), a[1]), c) for i, a, c in rules]
     rng.shuffle(rules)                                    # file order is independent of the index order
     calls = []
     for _ in range(rng.randint(1, 3)):
-        calls.append((rng.choice(CONSTS + ["_", "_"]), rng.choice(CONSTS + ["_", "_"]), rng.random() < 0.4))
+        first = rng.choice(["w(a)", "w(b)", "v(a)", "w(c)"]) if compound else rng.choice(CONSTS + ["_", "_"])
+        calls.append((first, rng.choice(CONSTS + ["_", "_"]), rng.random() < 0.4))
     return facts, rules, calls
 
 
@@ -72,8 +78,8 @@ def reference(facts, rules, calls):
             w *= p if b else 1 - p
             val[f] = bool(b)
         for k, (x, y, with_index) in enumerate(calls):
-            match = [(i, a) for i, a, cond in rules
-                     if (x == "_" or a[0] == x) and (y == "_" or a[1] == y)
+            match = [(i, (x if a[0] == "w(_)" else a[0], a[1])) for i, a, cond in rules
+                     if (x == "_" or a[0] == x or (a[0] == "w(_)" and x.startswith("w("))) and (y == "_" or a[1] == y)
                      and (cond is None or val[cond[1]] == cond[0])]
             if not match:
                 continue
@@ -132,7 +138,7 @@ def check_one(seed):
 
 
 def run(pid, tier, seed):
-    n = 2500 if tier == "thorough" else 300
+    n = 6000 if tier == "thorough" else 1200
     col = Collector("C33:cut-vs-lowest-index",
                     "%d seeded indexed rule sets r(I, X, Y) (2-7 clauses, indices from 1..15 distinct or repeated, in "
                     "shuffled file order, arguments over {a,b,c}, optional condition f or \\+f on 1-3 probabilistic facts), "
